@@ -48,6 +48,7 @@ func NewDynCompressor(w io.Writer, level int, windowSize int) *dynCompressor {
 
 	c.lz77 = buildLZ77(level, windowSize)
 	c.hist = c.lz77.histogram()
+	vtrace("new", windowSize, 0, 0, 0)
 	return c
 }
 
@@ -69,9 +70,11 @@ func (c *dynCompressor) Accumulate(data []byte) (n int, trigger bool) {
 		copy(c.buffer, c.buffer[offset:c.end])
 		c.idx -= offset
 		c.end -= offset
+		vtrace("slide", offset, c.idx, c.end, 0)
 	}
 	n = copy(c.buffer[c.end:2*c.windowSize+maxMatchLength], data)
 	c.end += n
+	vtrace("acc", len(data), n, c.idx, c.end)
 	if c.end < 2*c.windowSize+maxMatchLength {
 		return
 	}
@@ -85,6 +88,7 @@ func (w *dynCompressor) Compress() (err error) {
 func (w *dynCompressor) compressBlock(flush bool, finalBlock bool) (err error) {
 	if finalBlock && w.end == 0 {
 		w.buf.writeFinalEmptyBlock()
+		vtrace("efinal", w.buf.idx, 0, 0, 0)
 		_, err = w.w.Write(w.buf.output[:w.buf.idx])
 		return err
 	}
@@ -93,6 +97,7 @@ again:
 	nIdx, w.tokens = w.lz77.generate(flush, w.buffer[:w.end], w.processed, w.idx, w.tokens, maxTokenSize)
 	w.processed += nIdx - w.idx
 	w.idx = nIdx
+	vtrace("gen", vbool(flush), w.idx, w.end, len(w.tokens))
 	if len(w.tokens) < maxTokenSize && !flush {
 		return
 	}
@@ -127,6 +132,7 @@ var endOfBlock = newToken(256, InvalidDist, 0)
 
 func (c *dynCompressor) encodeBlock(last bool) error {
 	c.buf.idx = 0
+	vtrace("blk", vbool(last), len(c.tokens), 0, 0)
 	c.tokens = append(c.tokens, endOfBlock)
 	c.genHuffCodes()
 	c.hdr.writeTo(c.hist, last, &c.buf)
@@ -142,6 +148,7 @@ func (c *dynCompressor) encodeBlock(last bool) error {
 			c.buf.flushLastByte()
 		}
 		_, err := c.w.Write(c.buf.output[:c.buf.idx])
+		vtrace("out", c.buf.idx, vbool(err != nil), 0, 0)
 		if err != nil {
 			return err
 		}
@@ -160,6 +167,7 @@ func (w *dynCompressor) Flush() (err error) {
 	}
 	// write one zero length no compression block to align to bytes
 	w.buf.writeEmptyBlock()
+	vtrace("sync", w.buf.idx, 0, 0, 0)
 	_, err = w.w.Write(w.buf.output[:w.buf.idx])
 	w.buf.idx = 0
 	return err
@@ -183,4 +191,5 @@ func (w *dynCompressor) Reset(under io.Writer) {
 
 	w.buf.reset()
 	w.lz77.reset()
+	vtrace("reset", 0, 0, 0, 0)
 }
